@@ -1015,44 +1015,122 @@ func runTApEq(c *load.Ctx, r *report.RuleResult) {
 				}
 			}
 		}
-		enforced := map[string]bool{}
 		var notes, problems []string
+		all := []string{"mode", "schemaType", "typeName"}
+		// the two reads of the additionalProperties rule; the region in which both are known is what
+		// the later one dominates
+		apConst := int64(-1)
+		if k, ok := c.Pkg(pkgConstraint).Types.Scope().Lookup("AdditionalPropertiesConstraintType").(*types.Const); ok {
+			if v, exact := constant.Int64Val(k.Val()); exact {
+				apConst = v
+			}
+		}
+		var reads []*ssa.Call
+		for _, b := range s.fn.Blocks {
+			for _, ins := range b.Instrs {
+				call, ok := ins.(*ssa.Call)
+				if !ok {
+					continue
+				}
+				name := ""
+				if call.Call.IsInvoke() {
+					name = call.Call.Method.Name()
+				} else if sc := call.Call.StaticCallee(); sc != nil {
+					name = sc.Name()
+				}
+				if name != "Constraint" || len(call.Call.Args) == 0 {
+					continue
+				}
+				if k, ok := call.Call.Args[len(call.Call.Args)-1].(*ssa.Const); ok && k.Value != nil && k.Int64() == apConst {
+					reads = append(reads, call)
+				}
+			}
+		}
+		if len(reads) < 2 {
+			r.Unk(key, pos, fmt.Sprintf("the function raising the conflict reads the additionalProperties rule %d time(s); the two rules being compared were not found", len(reads)))
+			continue
+		}
+		region := reads[0].Block()
+		for _, rd := range reads[1:] {
+			if region.Dominates(rd.Block()) {
+				region = rd.Block()
+			}
+		}
+		fromRead := func(v ssa.Value) bool {
+			for depth := 0; depth < 8; depth++ {
+				switch x := v.(type) {
+				case *ssa.Call:
+					for _, rd := range reads {
+						if rd == x {
+							return true
+						}
+					}
+					return false
+				case *ssa.TypeAssert:
+					v = x.X
+				case *ssa.Extract:
+					v = x.Tuple
+				case *ssa.ChangeInterface:
+					v = x.X
+				case *ssa.MakeInterface:
+					v = x.X
+				default:
+					return false
+				}
+			}
+			return false
+		}
+		type edgeFact struct {
+			atoms  map[string]bool
+			absent bool // one of the two rules is not there: nothing to compare on this edge
+		}
+		facts := map[*ssa.BasicBlock][2]edgeFact{}
 		guards := 0
 		for _, b := range s.fn.Blocks {
-			if toPanic[b] || len(b.Succs) != 2 {
+			if len(b.Succs) != 2 {
 				continue
 			}
 			ifi, ok := b.Instrs[len(b.Instrs)-1].(*ssa.If)
-			if !ok || toPanic[b.Succs[0]] == toPanic[b.Succs[1]] {
+			if !ok {
 				continue
 			}
-			guards++
-			// passOn: the value of the condition on the edge that does not raise the conflict
-			passOn := toPanic[b.Succs[1]]
+			onTrue := true
 			cond := ifi.Cond
 			for {
 				u, ok := cond.(*ssa.UnOp)
 				if !ok || u.Op != token.NOT {
 					break
 				}
-				cond, passOn = u.X, !passOn
+				cond, onTrue = u.X, !onTrue
+			}
+			var f [2]edgeFact
+			set := func(whenCond bool, ef edgeFact) {
+				// Succs[0] is taken when the If's own condition is true
+				idx := 1
+				if whenCond == onTrue {
+					idx = 0
+				}
+				f[idx] = ef
 			}
 			switch x := cond.(type) {
 			case *ssa.BinOp:
 				if x.Op != token.EQL && x.Op != token.NEQ {
-					problems = append(problems, "a guard of the conflict is neither a comparison nor a call: "+x.String())
-					continue
+					break
+				}
+				isNil := func(v ssa.Value) bool { k, ok := v.(*ssa.Const); return ok && k.IsNil() }
+				if (isNil(x.Y) && fromRead(x.X)) || (isNil(x.X) && fromRead(x.Y)) {
+					set(x.Op == token.EQL, edgeFact{absent: true})
+					break
 				}
 				fx, fy := apeqField(x.X, isAP), apeqField(x.Y, isAP)
-				if fx == "" || fx != fy {
-					notes = append(notes, "guard "+x.String()+" does not compare a field of the two rules")
-					continue
-				}
-				if (x.Op == token.EQL) == passOn {
-					enforced[fx] = true
+				if fx != "" && fx == fy {
+					guards++
+					set(x.Op == token.EQL, edgeFact{atoms: map[string]bool{fx: true}})
 					notes = append(notes, "the two rules' "+fx+" compared in place")
-				} else {
-					problems = append(problems, "the conflict is raised when the two rules' "+fx+" are equal")
+				}
+			case *ssa.Extract:
+				if ta, ok := x.Tuple.(*ssa.TypeAssert); ok && x.Index == 1 && fromRead(ta.X) {
+					set(false, edgeFact{absent: true})
 				}
 			case *ssa.Call:
 				g := x.Call.StaticCallee()
@@ -1065,34 +1143,101 @@ func runTApEq(c *load.Ctx, r *report.RuleResult) {
 					}
 				}
 				if g == nil || !load.FuncInModule(g) || nAP != 2 || len(g.Params) != 2 {
-					notes = append(notes, "guard "+x.String()+" is not a comparison of the two rules")
-					continue
+					break
 				}
-				if !passOn {
-					problems = append(problems, "the conflict is raised when "+g.Name()+" answers true")
-					continue
-				}
+				guards++
 				enf, paths, trues, probs := apeqCompare(c, g, apT)
 				for _, p := range probs {
 					problems = append(problems, g.Name()+": "+p)
 				}
 				var fs []string
-				for f := range enf {
-					enforced[f] = true
-					fs = append(fs, f)
+				for fld := range enf {
+					fs = append(fs, fld)
 				}
 				sort.Strings(fs)
+				set(true, edgeFact{atoms: enf})
 				notes = append(notes, fmt.Sprintf("%s (%d paths, %d answer true) answers true only after finding equal: %s", g.Name(), paths, trues, strings.Join(fs, ", ")))
-			default:
-				notes = append(notes, "guard "+cond.String()+" is not a comparison of the two rules")
 			}
+			facts[b] = f
 		}
 		if guards == 0 {
-			problems = append(problems, "the conflict is raised unconditionally or its guards were not found")
+			problems = append(problems, "no comparison of the two rules guards the conflict")
 		}
-		for _, f := range []string{"mode", "schemaType", "typeName"} {
-			if !enforced[f] {
-				problems = append(problems, "the no-conflict continuation is reached without the two rules' "+f+" having been found equal")
+		// must-analysis inside the region: which fields have been found equal on every path
+		inRegion := func(b *ssa.BasicBlock) bool { return region.Dominates(b) }
+		top := func() map[string]bool { return map[string]bool{"mode": true, "schemaType": true, "typeName": true} }
+		in := map[*ssa.BasicBlock]map[string]bool{}
+		for _, b := range s.fn.Blocks {
+			if inRegion(b) {
+				in[b] = top()
+			}
+		}
+		in[region] = map[string]bool{}
+		edgeOut := func(b *ssa.BasicBlock, i int) map[string]bool {
+			if f, ok := facts[b]; ok {
+				if f[i].absent {
+					return top()
+				}
+				out := map[string]bool{}
+				for k := range in[b] {
+					out[k] = true
+				}
+				for k := range f[i].atoms {
+					out[k] = true
+				}
+				return out
+			}
+			return in[b]
+		}
+		for changed, rounds := true, 0; changed && rounds < 50; rounds++ {
+			changed = false
+			for _, b := range s.fn.Blocks {
+				if !inRegion(b) || b == region {
+					continue
+				}
+				meet := top()
+				for _, p := range b.Preds {
+					if !inRegion(p) {
+						continue
+					}
+					for i, su := range p.Succs {
+						if su != b {
+							continue
+						}
+						o := edgeOut(p, i)
+						for k := range meet {
+							if !o[k] {
+								delete(meet, k)
+							}
+						}
+					}
+				}
+				if len(meet) != len(in[b]) {
+					in[b] = meet
+					changed = true
+				}
+			}
+		}
+		missing := map[string]bool{}
+		need := func(have map[string]bool, where string) {
+			for _, f := range all {
+				if !have[f] && !missing[f+where] {
+					missing[f+where] = true
+					problems = append(problems, "the code after the comparison is reached "+where+" without the two rules' "+f+" having been found equal")
+				}
+			}
+		}
+		for _, b := range s.fn.Blocks {
+			if !inRegion(b) || toPanic[b] {
+				continue
+			}
+			if _, isRet := b.Instrs[len(b.Instrs)-1].(*ssa.Return); isRet {
+				need(in[b], "(return at "+blockPos(c, b)+")")
+			}
+			for i, su := range b.Succs {
+				if !inRegion(su) {
+					need(edgeOut(b, i), "(from "+blockPos(c, b)+")")
+				}
 			}
 		}
 		sort.Strings(problems)
@@ -1155,4 +1300,131 @@ func apeqField(v ssa.Value, isAP func(types.Type) bool) string {
 		}
 	}
 	return ""
+}
+
+// blockPos: a source position for a basic block (the last instruction that has one, else a
+// predecessor's).
+func blockPos(c *load.Ctx, b *ssa.BasicBlock) string {
+	seen := map[*ssa.BasicBlock]bool{}
+	for b != nil && !seen[b] {
+		seen[b] = true
+		for i := len(b.Instrs) - 1; i >= 0; i-- {
+			if b.Instrs[i].Pos().IsValid() {
+				return c.Pos(b.Instrs[i].Pos())
+			}
+		}
+		if len(b.Preds) == 0 {
+			break
+		}
+		b = b.Preds[0]
+	}
+	return "-"
+}
+
+// --- C18: the regex type is converted to a schema with its own pattern and sample ---------------------
+
+func init() {
+	register(&Rule{ID: "RX-2", Min: 2, Run: runRX2,
+		Doc: "a regex type becomes a one-line schema made of its own sample and its own pattern: in jschema.(*Schema).AddType, the operands of the formatting call that writes the schema text of a regex type are the results of the type's Example() and Pattern() as they are — not wrapped, anchored, re-quoted or otherwise edited on the way (quoting is the format verb's business) — so that the added type accepts exactly what an inline {regex: P} accepts"})
+}
+
+func runRX2(c *load.Ctx, r *report.RuleResult) {
+	fn := c.Func("notations/jschema", "Schema.AddType")
+	if fn == nil {
+		r.Unk("anchor|jschema.Schema.AddType", "", "not found")
+		return
+	}
+	fromRegexMethod := func(v ssa.Value) (string, string) {
+		for depth := 0; depth < 6; depth++ {
+			switch x := v.(type) {
+			case *ssa.MakeInterface:
+				v = x.X
+			case *ssa.ChangeType:
+				v = x.X
+			case *ssa.Extract:
+				call, ok := x.Tuple.(*ssa.Call)
+				if !ok || x.Index != 0 {
+					return "", describeValue(v)
+				}
+				sc := call.Call.StaticCallee()
+				if sc != nil && load.FuncPkgRel(sc) == "notations/regex" && sc.Signature.Recv() != nil {
+					return sc.Name(), ""
+				}
+				return "", "the result of " + describeValue(call)
+			case *ssa.Call:
+				if sc := x.Call.StaticCallee(); sc != nil {
+					return "", "the result of " + sc.Name() + "(…)"
+				}
+				return "", "the result of a call"
+			case *ssa.Convert:
+				return "", "a conversion of " + describeValue(x.X)
+			case *ssa.BinOp:
+				return "", "an expression (" + x.Op.String() + ")"
+			default:
+				return "", describeValue(v)
+			}
+		}
+		return "", "?"
+	}
+	found := 0
+	for _, b := range fn.Blocks {
+		for _, ins := range b.Instrs {
+			call, ok := ins.(*ssa.Call)
+			if !ok {
+				continue
+			}
+			sc := call.Call.StaticCallee()
+			if sc == nil || sc.Pkg == nil || sc.Pkg.Pkg.Path() != "fmt" || sc.Name() != "Sprintf" || len(call.Call.Args) != 2 {
+				continue
+			}
+			// the variadic operands: stores into the backing array of the slice
+			sl, ok := call.Call.Args[1].(*ssa.Slice)
+			if !ok {
+				continue
+			}
+			al, ok := sl.X.(*ssa.Alloc)
+			if !ok {
+				continue
+			}
+			var methods []string
+			var problems []string
+			for _, ref := range *al.Referrers() {
+				ia, ok := ref.(*ssa.IndexAddr)
+				if !ok {
+					continue
+				}
+				for _, r2 := range *ia.Referrers() {
+					st, ok := r2.(*ssa.Store)
+					if !ok {
+						continue
+					}
+					m, why := fromRegexMethod(st.Val)
+					if m != "" {
+						methods = append(methods, m)
+					} else {
+						problems = append(problems, why)
+					}
+				}
+			}
+			if len(methods) == 0 {
+				continue // another Sprintf of AddType (error texts)
+			}
+			found++
+			sort.Strings(methods)
+			key := "regex-type-text|operands"
+			switch {
+			case len(problems) > 0:
+				r.Bad(key, c.Pos(call.Pos()), "the schema text of a regex type is formatted from "+strings.Join(problems, " and ")+" besides "+strings.Join(methods, ", ")+"(): the pattern or the sample is edited before it is written, so the added type no longer means what the inline rule means")
+			case strings.Join(methods, ",") != "Example,Pattern":
+				r.Bad(key, c.Pos(call.Pos()), "the schema text of a regex type is formatted from "+strings.Join(methods, ", ")+"; expected the type's Example() and Pattern()")
+			default:
+				r.OK(key, c.Pos(call.Pos()), "formatted from Example() and Pattern() as they are")
+			}
+		}
+	}
+	if found == 0 {
+		r.Bad("regex-type-text|operands", c.Pos(fn.Pos()), "AddType no longer formats the schema text of a regex type from the type's own Example() and Pattern() results")
+	} else {
+		r.OK("regex-type-text|site", c.Pos(fn.Pos()), fmt.Sprintf("%d formatting call(s) take results of regex.Schema methods", found))
+	}
 }
